@@ -174,7 +174,20 @@ def ctor_case(draw):
     pkg = draw(st.sampled_from(sorted(set(p.split('.')[2] for p in paths))))
     path = draw(st.sampled_from([p for p in paths if p.split('.')[2] == pkg]))
     bad = draw(st.sampled_from(['not_a_parameter', 'gama', 'Geometry', 'rho_zero', 'verbosity']))
+    # names that a base class documents but the class itself does not (a geometry wrapper does not take 'geometry'): unknown to this class
+    inherited = _parent_only(path)
+    if inherited and draw(st.booleans()):
+        bad = draw(st.sampled_from(inherited))
     return dict(solver=path, bad=bad, u=[0.5] * 16)
+
+
+def _parent_only(path):
+    c = cat.cls_of(path)
+    own = set(getattr(c, 'parameters', {}) or {})
+    names = set()
+    for b in c.__mro__[1:]:
+        names |= set(b.__dict__.get('parameters', {}) or {})
+    return sorted(names - own)
 
 
 def check_ctor(case):
@@ -191,6 +204,11 @@ def check_ctor(case):
         return o
     kw = dict(rec['kwargs'])
     kw[case['bad']] = 1.0
+    if case['bad'] in _parent_only(path):
+        o.label('base-class-only name')
+        b = [b for b in c.__mro__[1:] if case['bad'] in (b.__dict__.get('parameters', {}) or {})][0]
+        if hasattr(b, case['bad']):
+            kw[case['bad']] = getattr(b, case['bad'])      # (a value the base class would accept: only the name is wrong)
     try:
         if '.nohblackboxeos.' in path:
             eos = cat.make_eos(dict(cls='ideal_gas_eos', args=dict(gamma=5.0 / 3.0)))
